@@ -30,7 +30,8 @@ def pubsub_script(draw):
     n = draw(st.integers(0, 3))
     fine = True
   for _ in range(n):
-    k = draw(st.sampled_from(["subscribe", "subscribe", "publish", "publish", "start", "settle"]))
+    k = draw(st.sampled_from(["subscribe", "subscribe", "subscribe", "publish", "publish", "publish", "start", "start",
+                              "settle", "settle", "clear"]))
     a = draw(st.integers(0, nao - 1))
     where = draw(st.sampled_from(["outside", "outside", "handler"]))
     if where == "handler" and a not in started:
@@ -43,6 +44,10 @@ def pubsub_script(draw):
       if a not in started:
         started.add(a)
         ops.append(["start", a])
+    elif k == "clear":
+      # the fabric's registries are emptied (nothing in flight): every object has to subscribe again
+      ops.append(["settle"])
+      ops.append(["clear"])
     else:
       ops.append(["settle"])
   for a in range(nao):
@@ -66,7 +71,7 @@ class C07(Prop):
   rule = ("Generated scripts under the deterministic scheduler: 1-3 ActiveObjects, each with or "
           "without the spy decorator on its states, a quarter of them built with instrumented=False; up to 10 operations from subscribe(signal, "
           "fifo/lifo) and publish(signal) - each called either from outside (body thread) or from "
-          "inside one of the object's own handlers during a step - start_at and settle, in any "
+          "inside one of the object's own handlers during a step - start_at, settle and clear() of the quiet fabric (after which every object has to subscribe again), in any "
           "order (so subscriptions and publications happen before and after start, with none, one "
           "or several other objects already subscribed to the signal); the script ends by starting "
           "every object, settling, publishing every signal once more and settling. Oracle: a "
@@ -191,6 +196,12 @@ class C07(Prop):
           for key in called:
             if key[0] in started:
               effective.add(key)
+        elif k == "clear":
+          if all(key[0] in started for key in called):     # (no subscription still waiting for its object's start)
+            charts[0].fabric.clear()
+            called.clear()
+            effective.clear()
+            flags["classes"].add("fabric_cleared")
       # subscriptions made after a publication may still catch it: widen "may" to all ever made
       for e in expect:
         for (x, sg, kd) in called:
